@@ -30,8 +30,8 @@ RULE = ('one run = one seeded allocation history on one storage kind '
         'every id returned earlier in the session and from every oid that '
         'has a record in any layer at that moment; non-trivial = >= 3 '
         'allocations after >= 1 store; distinct = (kind, outcome trace)')
-BUDGET = {'quick': {'runs': 4000, 'wall': 300, 'chunk': 25},
-          'thorough': {'runs': 150000, 'wall': 3000, 'chunk': 50}}
+BUDGET = {'quick': {'runs': 20000, 'wall': 300, 'chunk': 25},
+          'thorough': {'runs': 2500000, 'wall': 1800, 'chunk': 500}}
 ASSUMPTIONS = [
     'ids issued in an earlier session (before close/reopen) and never '
     'stored may be issued again: the property speaks of one open session',
